@@ -1,5 +1,3 @@
-//go:build wip_c18
-
 package kit
 
 // A small evaluator of one function over go/cfg under a hypothesised input
@@ -18,8 +16,8 @@ import (
 	"go/constant"
 	"go/token"
 	"go/types"
+	"strconv"
 	"strings"
-	"sync"
 
 	"golang.org/x/tools/go/cfg"
 )
@@ -117,6 +115,7 @@ type Interp struct {
 	res    *IResult
 	inputs map[types.Object]bool
 	brs    map[*cfg.Block]Branch
+	vkeys  map[types.Object]string
 }
 
 type istate struct {
@@ -153,6 +152,7 @@ func (ip *Interp) Run() *IResult {
 	ip.res = &IResult{Consumed: map[string]bool{}, LenCmp: map[string][]int64{}}
 	ip.ranges = map[ast.Node]*ast.RangeStmt{}
 	ip.brs = map[*cfg.Block]Branch{}
+	ip.vkeys = map[types.Object]string{}
 	ast.Inspect(ip.F.Body, func(n ast.Node) bool {
 		if rs, ok := n.(*ast.RangeStmt); ok {
 			ip.ranges[rs.X] = rs
@@ -409,14 +409,12 @@ func (ip *Interp) rangeStep(st *istate, rs *ast.RangeStmt) []condOut {
 // ---------------------------------------------------------------------------
 // locations
 
-var varKeys sync.Map // types.Object -> string
-
-func varKey(o types.Object) string {
-	if k, ok := varKeys.Load(o); ok {
-		return k.(string)
+func (ip *Interp) varKey(o types.Object) string {
+	if k, ok := ip.vkeys[o]; ok {
+		return k
 	}
-	k := fmt.Sprintf("v%d:%s", o.Pos(), o.Name())
-	varKeys.Store(o, k)
+	k := "v" + strconv.Itoa(int(o.Pos())) + ":" + o.Name()
+	ip.vkeys[o] = k
 	return k
 }
 
@@ -433,7 +431,7 @@ func (ip *Interp) lvalue(st *istate, e ast.Expr) (key, pretty string, ok bool) {
 		if v, isVar := o.(*types.Var); !isVar || v.Pkg() == nil || v.Parent() == v.Pkg().Scope() {
 			return "", "", false
 		}
-		return varKey(o), x.Name, true
+		return ip.varKey(o), x.Name, true
 	case *ast.SelectorExpr:
 		sel, isSel := ip.info.Selections[x]
 		if !isSel || sel.Kind() != types.FieldVal || len(sel.Index()) != 1 {
@@ -676,7 +674,7 @@ func (ip *Interp) exec(st *istate, n ast.Node) {
 			case len(y.Values) == len(y.Names):
 				ip.store(st, nm, ip.eval(st, y.Values[i]))
 			case len(y.Values) == 0:
-				ip.storeKey(st, varKey(o), o.Type(), ip.zero(st, varKey(o), o.Type()))
+				ip.storeKey(st, ip.varKey(o), o.Type(), ip.zero(st, ip.varKey(o), o.Type()))
 			default:
 				ip.store(st, nm, IVal{K: 'u'})
 			}
@@ -816,7 +814,7 @@ func (ip *Interp) compare(op token.Token, a, b IVal, at ast.Expr) IVal {
 				return IVal{K: 'b', I: b2i(!isNil)}
 			}
 		}
-		return IVal{K: 'u', Env: x.Env}
+		return IVal{K: 'u', Env: x.K == 'u' && x.Env}
 	}
 	if (a.K == 'i' && b.K == 'i') || (a.K == 'b' && b.K == 'b') {
 		var r bool
@@ -842,8 +840,11 @@ func (ip *Interp) compare(op token.Token, a, b IVal, at ast.Expr) IVal {
 			ip.res.LenCmp[pr[0].Tag[4:]] = append(ip.res.LenCmp[pr[0].Tag[4:]], pr[1].I)
 		}
 	}
-	free := func(v IVal) bool { return v.K != 'u' || v.Env }
-	return IVal{K: 'u', Env: free(a) && free(b)}
+	// the outcome is the environment's choice only if an environment-chosen
+	// unknown takes part and nothing untracked does
+	envU := func(v IVal) bool { return v.K == 'u' && v.Env }
+	blind := func(v IVal) bool { return v.K == 'u' && !v.Env }
+	return IVal{K: 'u', Env: (envU(a) || envU(b)) && !blind(a) && !blind(b)}
 }
 
 func b2i(b bool) int64 {
